@@ -114,6 +114,25 @@ def unit_env(item):
             loaded = load_npz_to_tensordict(f)
             if same_td(td0, loaded, p, spec, "npz_roundtrip", rec):
                 bisimulate(spec, env, td0, env, loaded, p, "npz_roundtrip", rec)
+            # (a') the environment's own loader where it reads this format (base implementation, MTVRP)
+            from rl4co.envs.common.base import RL4COEnvBase
+
+            own = getattr(type(env).load_data, "__func__", type(env).load_data)
+            if own is getattr(RL4COEnvBase.load_data, "__func__", RL4COEnvBase.load_data) or spec.kind == "mtvrp":
+                try:
+                    l2 = env.load_data(f)
+                    p.add(states=1, evaluations=1)
+                    same_td(td0, l2, p, spec, "env_load_data", rec)
+                    if spec.kind == "mtvrp":
+                        l3 = env.load_data(f, scale=True)
+                        for k_ in ("demand_linehaul", "demand_backhaul"):
+                            want = td0[k_] / td0["capacity_original"]
+                            if not torch.allclose(l3[k_].float(), want.float(), atol=1e-7):
+                                p.violation(sig("mtvrp", skey.partition(":")[2], "values", "env_load_data_scaled"), rec, f"{skey} {iid}: load_data(scale=True) gives {k_} {l3[k_].flatten().tolist()}, documented demand / capacity_original = {want.flatten().tolist()}")
+                        others = [k_ for k_ in td0.keys() if k_ not in ("demand_linehaul", "demand_backhaul")]
+                        same_td(td0.select(*others), l3.select(*others), p, spec, "env_load_data_scaled", rec)
+                except Exception as e:  # noqa: BLE001
+                    p.violation(sig(skey.partition(":")[0], skey.partition(":")[2], f"crash:{type(e).__name__}", "env_load_data"), rec, f"{skey} {iid}: env.load_data of a file written by save_tensordict_to_npz fails: {type(e).__name__}: {str(e)[:100]}")
             # (d) deepcopy / pickle, before and after a reset
             for when in ("fresh", "after_reset"):
                 if when == "after_reset":
